@@ -109,8 +109,12 @@ CLAIMS = {
          "imported package, like functions and type names, in all four binder kinds, and repeat names inside one parameter list / pattern; "
          "the well-typed-by-construction stream must be accepted. Which bare names in PATTERN position are constructor patterns "
          "(lower.rs: variants / structs declared in the same file) is taken from the real AST, not decided by the property.",
-    design_ref="§5 C05",
-    note="Trusted: Lean kernel (axioms printed in evidence), harness AST→scope-tree dump and HIR walk, the generator's coverage of scope shapes. "
+    design_ref="§5 C05, §CST→AST lowering — as built (round 11)",
+    note="Round 11: the constructor-vs-local classification of ast/src/lower.rs (is_constructor_path and its binder stack) is now inside a "
+         "Lean model (Model/Lower.lean) whose stack discipline is proved (Props/Lower.lean: lower_binder_stack_balanced, patVars_scope) and which "
+         "./check C05 ties to the real lowering on the real rowan tree of every file of every generated and catalogue program; conOk* is still "
+         "evaluated per case (lower_ctor_iff for all trees is not proved). "
+         "Trusted: Lean kernel (axioms printed in evidence), harness AST→scope-tree dump and HIR walk, the generator's coverage of scope shapes. "
          "The typer's own scoping (LocalTypeEnv) is exercised only through the acceptance oracle.",
     technique="Lean 4 proof (structural induction over the nested AST) + differential correspondence with the Rust resolver"),
  "C07": dict(
@@ -302,11 +306,25 @@ CLAIMS = {
          "ast::Expr must equal both the original tree (property oracle) and the model's parse (tie); ~390 literal spellings plus ~11 800 \\u-escape spellings over the whole code space (every plane, all surrogates, lone "
          "surrogates; in literals, patterns, multi-line strings; oracle computed in Python from the source text) (every integer "
          "suffix, floats, every escape, multi-line strings) are compiled by the whole pipeline and the EPrim reaching Core must be the denoted "
-         "value (oracle) and equal the model's decoding (tie).",
-    design_ref="§5 C11, §C11 — as built",
+         "value (oracle) and equal the model's decoding (tie). "
+         "Round 11 — CST→AST lowering inside the model: Model/Lower.lean mirrors crates/ast/src/lower.rs function by function (accessors of "
+         "cst/nodes.rs; expressions incl. trailing_args re-attachment, every literal kind, calls, fields, projections, paths, struct literals, "
+         "closures, blocks/let, if/while/match/go; patterns; types; items fn/enum/struct/trait/impl/extern incl. attributes; the binder stack "
+         "locals with is_constructor / is_constructor_path; the diagnostics). Theorems (Props/Lower.lean): lower_binder_stack_balanced (for every "
+         "tree, fuel and state the stack after lowering an expression / branch / field / argument / arm / block equals the stack before), "
+         "lower_stmt_only_pushes, lower_pat_ty_leave_stack, lower_total_partial (no tree reaches the one panic site of lower.rs; missing: that the "
+         "model's fuel always suffices), isCtorPath_bare_iff / isCtorPath_qualified (the classification test), patVars_scope (bind_pat pushes "
+         "exactly Resolve.patNames). Tie: the REAL rowan tree of ~52 000 texts per quick run (all corpus and witness files, the name catalogue, "
+         "every operator tree of this check, 700 generated whole programs with items / patterns / types / blocks / closures / struct literals, "
+         "2 500 token-level mutants = error-recovered trees, LF/CRLF pairs) is lowered by the model and must equal the real ast::File dump or "
+         "the real diagnostic list; model-free oracles: no panic in ast::lower, LF and CRLF spellings of a program lower to the same tree.",
+    design_ref="§5 C11, §C11 — as built, §CST→AST lowering — as built (round 11)",
     note="Proved: the theorems above about the Lean model. Validated only (differential, not proved): that the model equals the Rust parser "
          "and lowering; integer/float literal values (no Lean theorem: the value is computed by Rust's str::parse, the harness compares with "
-         "an independently computed expectation); items, patterns and types are not in the tree generator (operator expressions only). "
+         "an independently computed expectation); items, patterns and types are not in the OPERATOR-tree generator (they are in the round-11 "
+         "program generator of the lowering tie); NOT proved: lower_ctor_iff against the declarative scope rules for all trees (only the "
+         "stack discipline and the test are proved, the rest is the tie plus C05's conOk check), lower_parse_print beyond operator trees, "
+         "sufficiency of the model's fuel, source ranges of lowering diagnostics (not modelled). "
          "Trusted: Lean kernel, tools/extract.py regexes, harness AST dump and trivia insertion, the real lexer (C12) for token boundaries.",
     technique="Lean 4 proof (structural induction over trees via a spine decomposition of the Pratt CST) + translator for the "
               "binding-power table + differential correspondence with parse_ast_file and the whole pipeline"),
